@@ -271,6 +271,7 @@ func init() {
 		b.WriteString("structure NormEnd where\n  file : String\n  func : String\n  kind : String\n  norm : (n nb e : Int) → Int\n\n")
 
 		var windows, norms []string
+		normsByClass := map[string][]string{}
 		for _, site := range slSites {
 			f, err := load(site.file)
 			if err != nil {
@@ -370,6 +371,7 @@ func init() {
 								}
 								fmt.Fprintf(&b, "def %s_normEnd : NormEnd := {\n  file := %q, func := %q, kind := %q,\n  norm := fun n nb e => if %s then %s else e }\n\n", base, site.file, site.fn, site.kind, c, v)
 								norms = append(norms, base+"_normEnd")
+								normsByClass[site.class] = append(normsByClass[site.class], base+"_normEnd")
 								continue
 							}
 						}
@@ -499,6 +501,14 @@ func init() {
 		}
 		fmt.Fprintf(&b, "def windows : List Window := [%s]\n\n", strings.Join(windows, ", "))
 		fmt.Fprintf(&b, "def normEnds : List NormEnd := [%s]\n\n", strings.Join(norms, ", "))
+		var nclasses []string
+		for c := range normsByClass {
+			nclasses = append(nclasses, c)
+		}
+		sort.Strings(nclasses)
+		for _, c := range nclasses {
+			fmt.Fprintf(&b, "def %sNormEnds : List NormEnd := [%s]\n\n", c, strings.Join(normsByClass[c], ", "))
+		}
 
 		// --- argument order of the :test / predicate calls, sort functions, merge
 		b.WriteString("/-- file ↦ the argument lists of every call of the :test function / predicate, in source order, de-duplicated -/\n")
